@@ -108,7 +108,8 @@ def include_flags(variant):
 
 def compile_one(cxx, flags, src, obj):
     os.makedirs(os.path.dirname(obj), exist_ok=True)
-    tmp = obj + ".tmp%d" % os.getpid()
+    import threading
+    tmp = obj + ".tmp%d-%d" % (os.getpid(), threading.get_ident())   # several harnesses of one setup compile the shared shim concurrently
     cmd = [cxx] + flags + ["-c", src, "-o", tmp]
     r = subprocess.run(cmd, stdout=subprocess.PIPE, stderr=subprocess.STDOUT, text=True)
     if r.returncode != 0:
